@@ -199,8 +199,25 @@ def simple_helper(f: FuncInfo) -> bool:
     return n_stmts <= 12
 
 
+# The pipeline is followed through every repo function *except* across these boundaries: the graph layer (whose calls are the
+# events the rules are about), the scanning front end, and the rendering of messages / diagrams (never on a verdict's path).
+OPAQUE_PREFIXES = (
+    "pytestarch.eval_structure.", "pytestarch.eval_structure_generation.", "pytestarch.rule_assessment.error_message.",
+    "pytestarch.diagram_extension.", "pytestarch.pytestarch",
+)
+
+
+def _opaque_module(name: str) -> bool:
+    return any(name.startswith(p) or name == p.rstrip(".") for p in OPAQUE_PREFIXES)
+
+
 def descend_pipeline(f: FuncInfo) -> bool:
-    return f.module.name in PIPE_MODULES or (f.cls is None and f.outer is None and simple_helper(f)) or (f.outer is not None and f.outer.module.name in PIPE_MODULES)
+    top = f
+    while top.outer is not None:
+        top = top.outer
+    if not _opaque_module(top.module.name):
+        return True
+    return f.outer is None and (f.cls is None or f.is_staticmethod) and simple_helper(f)
 
 
 def _scenario_interp(repo: Repo) -> Interp:
@@ -256,16 +273,24 @@ def run_scenario(repo: Repo, sc: Scenario) -> Run:
     queries = [e for e in I.events if e.kind == "call" and e.name in QUERIES and e.recv is not None and roots_of(e.recv) == {"evaluable"}]
     raises = [e for e in I.events if e.kind == "raise"]
     verdicts = [e for e in raises if e.name == "AssertionError"]
-    viol_cls = repo.cls(VIOLATIONS, "RuleViolations")
-    viols = [i for i in I.instances if i.cls is viol_cls]
-    matchers = [i for i in I.instances if i.cls.module.name == MATCHER]
-    detectors = [i for i in I.instances if i.cls.module.name in (DETECTOR, LAYER_DETECTOR) and repo.lookup_method(i.cls, "get_rule_violation") is not None]
+    # the objects of the evaluation, found by role: the detector is the object answering `get_rule_violation`, the violations
+    # object is what that call returns, the matcher is the object whose class holds the call sites of the graph questions
+    detectors = [i for i in I.instances if repo.lookup_method(i.cls, "get_rule_violation") is not None]
+    viols = []
+    if detectors:
+        grv = repo.lookup_method(detectors[-1].cls, "get_rule_violation")
+        for _env, res_, _fr in I.frames_of.get(grv.fq, []):
+            viols += [o for _g, o in (res_.options if isinstance(res_, Alt) else [(TRUE, res_)]) if isinstance(o, Inst)]
+    if not viols:
+        viol_cls = repo.modules.get(VIOLATIONS) and repo.module(VIOLATIONS).classes.get("RuleViolations")
+        viols = [i for i in I.instances if i.cls is viol_cls]
+    site_classes = {q.fi.cls.fq for q in queries if q.fi is not None and q.fi.cls is not None}
+    matchers = [i for i in I.instances if any(c.fq in site_classes for c in repo.mro(i.cls))] or [i for i in I.instances if i.cls.module.name == MATCHER]
+    beh, modreq = _requirement_events(repo, I, rule)
     run = Run(
         sc, I, rule, cfg, cfg_name, queries, verdicts, [e for e in raises if e.name != "AssertionError"],
         viols[-1] if viols else None, matchers[-1] if matchers else None, detectors[-1] if detectors else None,
-        _requirement_events(I, BEHAVIOR),
-        _requirement_events(I, MODREQ),
-        result,
+        beh, modreq, result,
     )
     cache[key] = run
     return run
@@ -322,15 +347,26 @@ def _dataclass_fields(repo: Repo, ci: ClassInfo) -> list[str]:
     return names
 
 
-def _requirement_events(I: Interp, module: str) -> list:
-    """Constructor events of *the* requirement class of a module: the class the rule itself (query_language/rule.py) instantiates
-    there; helper records the requirement builds internally do not count."""
-    news = [e for e in I.events if e.kind == "new" and isinstance(e.result, Inst) and e.result.cls.module.name == module]
-    by_rule = [e for e in news if e.fi is not None and e.fi.module.name == RULE]
-    if not by_rule:
-        return news
-    cls = by_rule[0].result.cls
-    return [e for e in news if e.result.cls is cls]
+def _requirement_events(repo: Repo, I: Interp, rule: Inst) -> tuple[list, list]:
+    """Constructor events of the two requirement classes, found by role among the objects the Rule class itself builds during
+    assert_applies: the *behaviour* requirement is the one built from boolean flags only, the *module* requirement the one built
+    from the rule's subjects / objects.  (All later constructions of the same classes are returned as well, in order.)"""
+    news = [e for e in I.events if e.kind == "new" and isinstance(e.result, Inst)]
+    by_rule = [e for e in news if e.fi is not None and e.fi.cls is not None and any(c.fq == e.fi.cls.fq for c in repo.mro(rule.cls))]
+    beh_cls = mod_cls = None
+    for e in by_rule:
+        args = bound_args(repo, e)
+        if not args:
+            continue
+        if beh_cls is None and len(args) >= 3 and all(isinstance(a, BoolF) or (isinstance(a, Const) and isinstance(a.value, bool)) for a in args):
+            beh_cls = e.result.cls
+        elif mod_cls is None and any(roots_of(a) & {"S", "O"} for a in args) and not {"should", "should_only", "should_not"} <= set(e.result.fields):
+            mod_cls = e.result.cls
+    if beh_cls is None:
+        beh_cls = repo.modules.get(BEHAVIOR) and repo.module(BEHAVIOR).classes.get("BehaviorRequirement")
+    if mod_cls is None:
+        mod_cls = repo.modules.get(MODREQ) and repo.module(MODREQ).classes.get("ModuleRequirement")
+    return [e for e in news if e.result.cls is beh_cls], [e for e in news if e.result.cls is mod_cls]
 
 
 def legal_scenarios() -> list[Scenario]:
@@ -583,7 +619,7 @@ def demand_run(repo: Repo, sc: Scenario) -> dict:
     run = run_scenario(repo, sc)
     if run.detector is None:
         # the evaluation of this (legal) rule shape never reaches a detector (it raises before): nothing is judged
-        viol = repo.cls(VIOLATIONS, "RuleViolations")
+        viol = repo.cls(VIOLATIONS, "RuleViolations")  # (fallback by name: no evaluated rule shows the class)
         cache[key] = {f: BucketValue(f, []) for f in viol.ann_attrs}
         return cache[key]
     grv = repo.lookup_method(run.detector.cls, "get_rule_violation")
@@ -591,10 +627,9 @@ def demand_run(repo: Repo, sc: Scenario) -> dict:
     args = [Sym(("root", f"DATA{i}"), "dict") for i in range(n)]
     before = len(run.interp.instances)
     res = run.interp.call_method(run.detector, "get_rule_violation", args)
-    viol_cls = repo.cls(VIOLATIONS, "RuleViolations")
-    inst = res if isinstance(res, Inst) and res.cls is viol_cls else next((i for i in run.interp.instances[before:] if i.cls is viol_cls), None)
+    inst = res if isinstance(res, Inst) else next((o for _g, o in (res.options if isinstance(res, Alt) else []) if isinstance(o, Inst)), None)
     if inst is None:
-        raise AnalysisError(f"{grv.fq} does not return a RuleViolations object at '{sc.name}'")
+        raise AnalysisError(f"{grv.fq} does not return a violations object at '{sc.name}'")
     out = buckets_of(inst, data_param_sources(repo), run.interp.atom_info)
     cache[key] = out
     return out
@@ -627,7 +662,8 @@ class Inliner:
     def __init__(self, repo: Repo) -> None:
         self.repo = repo
         self.T = types_of(repo)
-        self.behavior = repo.cls(BEHAVIOR, "BehaviorRequirement")
+        probe = run_scenario(repo, Scenario("should", False, True))
+        self.behavior = probe.behavior_new[0].result.cls if probe.behavior_new else repo.cls(BEHAVIOR, "BehaviorRequirement")
         self._interp = Interp(repo, descend_pipeline)
         self._role_of_param = self._ctor_roles()
         init = repo.lookup_method(self.behavior, "__init__")
@@ -712,6 +748,19 @@ class Inliner:
         return _rename_atoms(f)
 
     def conds(self, fi: FuncInfo, node: ast.AST) -> Formula:
+        base = getattr(fi, "base", fi)
+        if isinstance(node, ast.Raise) and base is fi and fi.cls is not None and any(c.fq == self.behavior.fq for c in self.repo.mro(fi.cls)) and not fi.is_staticmethod:
+            # a raise inside a method of the behaviour requirement: the condition under which the interpreted method reaches it
+            # (loops over tuples of checks, helper methods and locals are followed)
+            I = self._interp
+            I.path.clear()
+            saved = len(I.events)
+            I.invoke(fi, self._br, [], {}, None, None, None)
+            evs = [x for x in I.events[saved:] if x.kind == "raise" and x.node is node]
+            del I.events[saved:]
+            I.pending.clear()
+            if evs:
+                return f_or([x.guard for x in evs])
         return f_and([self.formula(fi, e) if pol else f_not(self.formula(fi, e)) for e, pol in conds(fi, node)])
 
     def raise_formula(self, fi: FuncInfo) -> Formula:
@@ -795,17 +844,31 @@ class Bucket:
     call: ast.Call | None
 
 
+def plain_detector_class(repo: Repo) -> ClassInfo:
+    """Class of the detector a module rule is judged by (built by the default matcher during an evaluated rule)."""
+    run = run_scenario(repo, Scenario("should", False, True))
+    if run.detector is not None:
+        return run.detector.cls
+    return repo.cls(DETECTOR, "RuleViolationDetector")
+
+
+def violations_class(repo: Repo) -> ClassInfo:
+    run = run_scenario(repo, Scenario("should", False, True))
+    if run.violations is not None:
+        return run.violations.cls
+    return repo.cls(VIOLATIONS, "RuleViolations")
+
+
 def _grv(repo: Repo) -> FuncInfo:
-    base = repo.cls(DETECTOR, "RuleViolationBaseDetector")
-    grv = repo.lookup_method(base, "get_rule_violation")
+    grv = repo.lookup_method(plain_detector_class(repo), "get_rule_violation")
     if grv is None:
-        raise AnalysisError("RuleViolationBaseDetector.get_rule_violation not found")
+        raise AnalysisError("the detector of module rules has no get_rule_violation")
     return grv
 
 
 def _bucket_calls(repo: Repo, T: Types, grv: FuncInfo) -> dict:
     """field -> the `self.<method>(...)` call that computes the bucket (syntactic; for rules that look at the method bodies)."""
-    viol = repo.cls(VIOLATIONS, "RuleViolations")
+    viol = violations_class(repo)
     base = grv.cls
     out: dict = {}
     fields = list(viol.ann_attrs)
@@ -836,7 +899,7 @@ def bucket_wiring(repo: Repo, inl: "Inliner | None" = None) -> tuple[FuncInfo, l
     query whose answer is judged, and the detector method computing it - all read off the interpreted detector."""
     T = types_of(repo)
     grv = _grv(repo)
-    viol = repo.cls(VIOLATIONS, "RuleViolations")
+    viol = violations_class(repo)
     calls = _bucket_calls(repo, T, grv)
     tables: dict = {f: {} for f in viol.ann_attrs}
     sources: dict = {f: set() for f in viol.ann_attrs}
